@@ -15,6 +15,14 @@ use std::sync::atomic::{AtomicUsize, Ordering};
 use std::sync::Arc;
 use std::task::{Context, Poll, Wake, Waker};
 
+fn src_name(sk: u32) -> &'static str {
+  match sk {
+    0 => "a create handle",
+    2 => "a Subject with sibling subscribers",
+    _ => "a Subject relaying another Subject (upstream.actual_subscribe(relay))",
+  }
+}
+
 struct CountWaker(AtomicUsize);
 impl Wake for CountWaker {
   fn wake(self: Arc<Self>) {
@@ -29,8 +37,8 @@ impl Wake for CountWaker {
 fn c14_to_future(max_items: u32) {
   let script = draw_script(max_items, true);
   // source: a parked create handle, or a Subject on which this conversion is one subscriber among several
-  let sk = e::choose(2) * 2;
-  e::note(format!("to_future over {} ; input [{}]", if sk == 0 { "a create handle" } else { "a Subject with sibling subscribers" }, script.show()));
+  let sk = [0, 2, 3][e::choose(3) as usize];
+  e::note(format!("to_future over {} ; input [{}]", src_name(sk), script.show()));
   let cw = Arc::new(CountWaker(AtomicUsize::new(0)));
   let waker = Waker::from(cw.clone());
   let mut cx = Context::from_waker(&waker);
@@ -95,8 +103,8 @@ fn c14_to_future(max_items: u32) {
 
 fn c14_to_stream(max_items: u32) {
   let script = draw_script(max_items, true);
-  let sk = e::choose(2) * 2;
-  e::note(format!("to_stream over {} ; input [{}]", if sk == 0 { "a create handle" } else { "a Subject with sibling subscribers" }, script.show()));
+  let sk = [0, 2, 3][e::choose(3) as usize];
+  e::note(format!("to_stream over {} ; input [{}]", src_name(sk), script.show()));
   let cw = Arc::new(CountWaker(AtomicUsize::new(0)));
   let waker = Waker::from(cw.clone());
   let mut cx = Context::from_waker(&waker);
@@ -171,11 +179,11 @@ fn c14_to_stream(max_items: u32) {
 /// producer's terminal interleaved at the hooked yield points of the waiter's poll.
 fn c14_complete_status(max_items: u32, threads_form: bool) {
   let script = draw_script(max_items, true);
-  let sk = e::choose(2) * 2;
+  let sk = [0, 2, 3][e::choose(3) as usize];
   // an operator that emits on completion above the status stage, one that finishes early below it
   let pre_collect = e::choose_bool();
   let post_take = e::choose_bool();
-  e::note(format!("{}complete_status{}{} over {} ; input [{}]", if pre_collect { "collect()." } else { "" }, if post_take { ".take(1)" } else { "" }, if threads_form { " (threads source)" } else { "" }, if sk == 0 { "a create handle" } else { "a Subject with sibling subscribers" }, script.show()));
+  e::note(format!("{}complete_status{}{} over {} ; input [{}]", if pre_collect { "collect()." } else { "" }, if post_take { ".take(1)" } else { "" }, if threads_form { " (threads source)" } else { "" }, src_name(sk), script.show()));
   let probe = fresh_probe();
   let status;
   if threads_form {
@@ -325,7 +333,7 @@ fn c14_complete_status(max_items: u32, threads_form: bool) {
   };
   if (closed, completed, errored) != want {
     // the configuration is part of the key: the same symptom in another composition is another finding
-    let key = format!("complete_status/flags/{}{}{}", if sk == 0 { "handle" } else { "subject" }, if pre_collect { ".collect" } else { "" }, if post_take { ".take" } else { "" });
+    let key = format!("complete_status/flags/{}{}{}", ["handle", "", "subject", "subject"][sk as usize], if pre_collect { ".collect" } else { "" }, if post_take { ".take" } else { "" });
     e::fail(&key, || format!("source [{}]: is_closed={} is_completed={} error_occur={}", script.show(), closed, completed, errored));
   }
   if ready && !terminated {
